@@ -1,6 +1,7 @@
 import Driver.Frame
 import Driver.BlobStoreM
 import KrakenModel.Model.Tiered
+import Driver.C09Check
 /-
   Driver for C09 (machine `ts`): replays schedules of client operations and flush-worker steps of
   tiered.Store on `Model.Tiered`, compares every result and the state of both tiers and of the
@@ -47,6 +48,8 @@ structure St where
   t : TState := tinit 4 64 1
   g : Ghost := {}
   pendingSfx : Option Nat := none   -- suffix announced at the last `md` park
+  gs : GState := ginit 4 64 1       -- the model with the ghost variables of the Lean statements
+  inClass : Bool := true            -- the schedule so far satisfies `pre` (no re-creation while a flush is pending)
 
 def lookupA {β : Type} (l : List (Nat × β)) (k : Nat) : Option β := (l.find? (·.1 = k)).map (·.2)
 def eraseA {β : Type} (l : List (Nat × β)) (k : Nat) : List (Nat × β) := l.filter (·.1 ≠ k)
@@ -83,6 +86,17 @@ def runWorker (t : TState) (pick : Nat) : Nat → TState
     match seamOf (worker0 t') with
     | some _ => t'
     | none => runWorker t' 0 fuel
+
+/-- the same on the ghost-instrumented model, checking the invariant after every atomic step -/
+def runWorkerG (gs : GState) (pick : Nat) : Nat → GState × String
+  | 0 => (gs, "")
+  | fuel + 1 =>
+    let gs' := gstep gs (.work 0 pick)
+    let bad := C09Check.invFail gs'
+    if bad ≠ "" then (gs', bad) else
+    match seamOf (worker0 gs'.t) with
+    | some _ => (gs', "")
+    | none => runWorkerG gs' 0 fuel
 
 def inFlight (g : Ghost) (k : Nat) : Bool := g.wpoint ≠ "idle" ∧ g.wkey = some k
 
@@ -180,13 +194,20 @@ def ghostOp (s : St) (name : String) (k : Nat) (sfx : Nat) (data : List Nat) (im
   | _ => g
 
 def stepOp (s : St) (args impl : List String) : Option (St × StepOut) :=
-  let fin (name : String) (k : Nat) (sc : Scope) (sfx : Nat) (data : List Nat) (r : TState × Out) (br : String)
+  let fin (name : String) (k : Nat) (sc : Scope) (sfx : Nat) (data : List Nat) (co : COp) (br : String)
       (extra : List String := []) : Option (St × StepOut) :=
+    let r := capply s.t co
     let obs := outToks r.2
     let generic := if obs = impl then [] else [pf s!"result-{name}" s!"{name}: reference {sp obs} implementation {sp impl}"]
     let fails := opFails s name k sc sfx impl ++ extra
-    some ({ s with t := r.1, g := ghostOp s name k sfx data impl },
-          { obs := obs, branch := s!"{name}.{br}", propfails := if fails.isEmpty then generic else fails })
+    -- the invariant of the Lean proof, evaluated on the model (only inside the schedule class it is about)
+    let inClass := s.inClass && C09Check.preB s.gs (.client co)
+    let gs := gstep s.gs (.client co)
+    let bad := if inClass then C09Check.invFail gs else ""
+    let mfail := if bad = "" then [] else [s!"side=model key=model-invariant after {name}: {bad}"]
+    some ({ s with t := r.1, g := ghostOp s name k sfx data impl, gs := gs, inClass := inClass },
+          { obs := obs, branch := s!"{name}.{br}{if inClass then "" else "~"}",
+            propfails := (if fails.isEmpty then generic else fails) ++ mfail })
   let cls (o : Out) : String := match o with
     | .err e => errTok e
     | .absent => "absent"
@@ -199,60 +220,59 @@ def stepOp (s : St) (args impl : List String) : Option (St × StepOut) :=
     let k ← key? kt
     let n ← nat? nt
     let d ← bytes? dt
+    let co : COp := .create k n d
     let r := tCreate s.t k n d
     let br := match r.2 with
       | .ok => if inStore r.1.mem k then "mem" else "disk-fallback"
       | o => cls o
-    fin "create" k .any 0 d r (br ++ (if inFlight s.g k then "+inflight" else ""))
+    fin "create" k .any 0 d co (br ++ (if inFlight s.g k then "+inflight" else ""))
   | ["open", kt, sct] => do
     let k ← key? kt
     let sc ← scope? sct
     let r := tOpen s.t k sc
-    fin "open" k sc 0 [] r (cls r.2 ++ "." ++ where_ k)
+    fin "open" k sc 0 [] (.open k sc) (cls r.2 ++ "." ++ where_ k)
   | ["has", kt, sct] => do
     let k ← key? kt
     let sc ← scope? sct
     let r := tHas s.t k sc
-    fin "has" k sc 0 [] r (sp (outToks r.2))
+    fin "has" k sc 0 [] (.has k sc) (sp (outToks r.2))
   | ["list", sct] => do
     let sc ← scope? sct
-    let r := tList s.t sc
-    fin "list" 0 sc 0 [] r sct (listFails s impl)
+    fin "list" 0 sc 0 [] (.list sc) sct (listFails s impl)
   | ["stat", kt, sct] => do
     let k ← key? kt
     let sc ← scope? sct
     let r := tStat s.t k sc
-    fin "stat" k sc 0 [] r (cls r.2)
+    fin "stat" k sc 0 [] (.stat k sc) (cls r.2)
   | ["complete", kt] => do
     let k ← key? kt
-    let r := tMarkComplete s.t k
     let br := if isComplete s.t.mem k ∨ isComplete s.t.disk k then "noop" else
       if inStore s.t.mem k then "mem-dirty" else if inStore s.t.disk k then "disk" else "notexist"
-    fin "complete" k .any 0 [] r br
+    fin "complete" k .any 0 [] (.markComplete k) br
   | ["delete", kt, sct] => do
     let k ← key? kt
     let sc ← scope? sct
     let r := tDelete s.t k sc
-    fin "delete" k sc 0 [] r (cls r.2 ++ "." ++ where_ k ++ (if inFlight s.g k then "+inflight" else ""))
+    fin "delete" k sc 0 [] (.delete k sc) (cls r.2 ++ "." ++ where_ k ++ (if inFlight s.g k then "+inflight" else ""))
   | ["setmd", kt, sct, st, vt] => do
     let k ← key? kt
     let sc ← scope? sct
     let sfx ← sfx? st
     let v ← bytes? vt
     let r := tSetMd s.t k sc { sfx := sfx, movable := sfx % 2 = 0, val := v }
-    fin "setmd" k sc sfx v r (cls r.2 ++ "." ++ where_ k ++ (if s.g.wpoint = "unban" ∧ s.g.wkey = some k then "+unban" else ""))
+    fin "setmd" k sc sfx v (.setMd k sc { sfx := sfx, movable := sfx % 2 = 0, val := v }) (cls r.2 ++ "." ++ where_ k ++ (if s.g.wpoint = "unban" ∧ s.g.wkey = some k then "+unban" else ""))
   | ["getmd", kt, sct, st] => do
     let k ← key? kt
     let sc ← scope? sct
     let sfx ← sfx? st
     let r := tGetMd s.t k sc sfx
-    fin "getmd" k sc sfx [] r (cls r.2 ++ "." ++ where_ k)
+    fin "getmd" k sc sfx [] (.getMd k sc sfx) (cls r.2 ++ "." ++ where_ k)
   | ["delmd", kt, sct, st] => do
     let k ← key? kt
     let sc ← scope? sct
     let sfx ← sfx? st
     let r := tDelMd s.t k sc sfx
-    fin "delmd" k sc sfx [] r (cls r.2 ++ "." ++ where_ k)
+    fin "delmd" k sc sfx [] (.delMd k sc sfx) (cls r.2 ++ "." ++ where_ k)
   | _ => none
 
 def stepWorker (s : St) (impl : List String) : Option (St × StepOut) :=
@@ -262,6 +282,8 @@ def stepWorker (s : St) (impl : List String) : Option (St × StepOut) :=
     | .mdRead todo, some sfx => todo.idxOf sfx
     | _, _ => 0
   let t' := runWorker s.t pick 64
+  let (gs', bad) := if s.inClass then runWorkerG s.gs pick 64 else (s.gs, "")
+  let mfail := if bad = "" then [] else [s!"side=model key=model-invariant after a worker step: {bad}"]
   let w' := worker0 t'
   let name := (seamOf w').getD "?"
   -- at an `md` point adopt the implementation's choice if it is in the model's snapshot
@@ -281,8 +303,8 @@ def stepWorker (s : St) (impl : List String) : Option (St × StepOut) :=
   let g := if g.wpoint = "idle" then { g with delInFlight := [] } else g
   let fails := if bad then [pf "md-flush-not-dirty" s!"worker flushes {sp impl}, dirty snapshot is {sp obs}"] else
     if obs ≠ impl then [pf "result-step" s!"worker: reference parks at {sp obs}, implementation at {sp impl}"] else []
-  some ({ s with t := t', g := g, pendingSfx := pend },
-        { obs := obs, branch := s!"step.{name}", propfails := fails })
+  some ({ s with t := t', g := g, pendingSfx := pend, gs := gs' },
+        { obs := obs, branch := s!"step.{name}", propfails := fails ++ mfail })
 
 def stepProbe (s : St) (impl : List String) : Option (St × StepOut) :=
   let obs := probeToks s.t
@@ -299,7 +321,7 @@ def step (s : St) (kind : String) (args impl : List String) : Option (St × Step
 def initSt (cfg : List String) : Option St := do
   let mcap ← match kv? cfg "mcap" with | some c => nat? c | none => some 4
   let dcap ← match kv? cfg "dcap" with | some c => nat? c | none => some 64
-  some { t := tinit mcap dcap 1 }
+  some { t := tinit mcap dcap 1, gs := ginit mcap dcap 1 }
 
 def machine : Machine := { σ := St, name := "ts", init := initSt, step := step }
 
